@@ -1,11 +1,22 @@
 #!/bin/bash
-# Run once after a fresh restore, offline: builds the Lean library + oracle executables and the Go harness.
+# Run once after a fresh restore, offline: builds the Lean modules and oracle executables named in
+# props/*.json and the Go harness binaries.  Nothing is fetched.
 set -e
 cd "$(dirname "$0")"
 export GOFLAGS=-mod=mod GOPROXY=off
 unset GOSUMDB GOTOOLCHAIN || true
 mkdir -p .work/bin evidence replays
-(cd go && cp /repo/go.sum . 2>/dev/null || true; go build -o ../.work/bin/extract ./cmd/extract && ../.work/bin/extract -repo /repo || true)
-(cd lean && lake build)
+(cd go && go build -o ../.work/bin/extract ./cmd/extract && ../.work/bin/extract -repo /repo || true)
+targets=$(python3 - <<'PY'
+import json,glob
+t=set()
+for f in glob.glob('props/C*.json'):
+    c=json.load(open(f))
+    t.update(c.get('lean',[]))
+    t.update('oracle_'+d['oracle'] for d in c.get('domains',[]) if d.get('oracle'))
+print(' '.join(sorted(t)))
+PY
+)
+(cd lean && lake build $targets)
 (cd go && for d in cmd/*/; do n=$(basename $d); [ "$n" = extract ] && continue; go build -tags verif -o ../.work/bin/$n ./cmd/$n || true; done)
 echo setup done
